@@ -13,5 +13,5 @@ CONSTANTS
   Precedence = 0
   MaxBlock = 12
   Faults = {"none", "waiter", "submit", "status"}
-INVARIANTS TypeOK SlotsInjective RelayBeforeTimeout NoSubmitBeforeSlot ObservedNeverSubmits GateBlocksSubmission SingleWinner MonitoringOnlyRelay RelaySlotBeforeTimeoutBlock
-PROPERTIES NoSubmitAfterObserve
+INVARIANTS TypeOK SlotsInjective RelayBeforeTimeout RequestIsSlot ObservedNeverSubmits GateBlocksSubmission SingleWinner MonitoringOnlyRelay RelaySlotBeforeTimeoutBlock
+PROPERTIES NoSubmitAfterObserve NoSubmitBeforeSlot
